@@ -102,7 +102,7 @@ def _request_types_for(t, mode):
         return [t]
     twin = {'SINT': 'USINT', 'INT': 'UINT', 'DINT': 'UDINT', 'LINT': 'ULINT', 'USINT': 'SINT', 'UINT': 'INT', 'UDINT': 'DINT',
             'ULINT': 'LINT'}.get(t)
-    return [t, t] + ([twin, twin] if twin else []) + list(M.FIXED_TYPES)
+    return [t, t] + ([twin, twin] if twin else []) + (['BOOL', 'BOOL'] if t != 'BOOL' else []) + list(M.FIXED_TYPES)
 
 
 @st.composite
@@ -175,11 +175,11 @@ def op_strategy(draw, specs, mode):
                 if nvals > 1:
                     nvals = draw(st.integers(1, nvals))
         nvals = max(1, nvals)
-        if mode == 'edge' and draw(st.integers(0, 5)) == 0:
+        if draw(st.integers(0, 5 if mode == 'edge' else 11)) == 0:
             nvals += draw(st.integers(1, 3))        # more data than the declared element count
         op['values'] = draw(st.lists(value_of(rt), min_size=nvals, max_size=nvals))
         if svc == 'write_tag':
-            surplus = mode == 'edge' and n and len(op['values']) > n
+            surplus = n and len(op['values']) > n
             if not surplus:
                 op['count'] = len(op['values'])
     return op
@@ -198,7 +198,10 @@ def step_strategy(draw, specs, mode):
 def case_strategy(draw, mode, max_ops, types=M.ALL_TYPES, allow_big=True):
     specs = draw(specs_strategy(types=types, allow_big=allow_big))
     nops = draw(st.integers(1, max_ops))
-    ops = [draw(step_strategy(specs, mode)) for _ in range(nops)]
+    # locality: half of the steps work on one or two "hot" tags, so that multi-step interactions on one tag (a write of
+    # one kind, another write, a read) are common and not left to chance
+    hot = [specs[draw(st.integers(0, len(specs) - 1))] for _ in range(draw(st.integers(1, 2)))]
+    ops = [draw(step_strategy(hot if draw(st.booleans()) else specs, mode)) for _ in range(nops)]
     return {'specs': specs, 'ops': ops}
 
 
